@@ -388,6 +388,7 @@ func (x *Exec) loop(s ast.Stmt, st *State, cx *Ctx, k func(*State)) {
 		for name := range ms.whole {
 			if cur, ok := h.heap[name]; ok {
 				h.heap[name] = Val{T: x.freshConst("lp_"+name, cur.S), S: cur.S}
+				h.wrote(name, "*", "true")
 			}
 		}
 		for g := range ms.ghosts {
@@ -1063,26 +1064,39 @@ func (x *Exec) checkFrame(st *State) {
 	for name := range st.heap {
 		names = append(names, name)
 	}
+	for name := range st.writes {
+		if _, ok := st.heap[name]; !ok {
+			names = append(names, name)
+		}
+	}
 	sort.Strings(names)
 	for _, name := range names {
-		cur := st.heap[name]
-		init := "H0_" + name
-		if cur.T == init {
-			continue
-		}
-		x.declare(init, cur.S)
 		if strings.HasPrefix(name, "g_") {
+			cur := st.heap[name]
+			init := "H0_" + name
+			if cur.T == init {
+				continue
+			}
+			x.declare(init, cur.S)
 			if !ghostOK[name] {
 				x.oblige(st, "frame", "frame:"+name, []string{"*"}, app("=", cur.T, init))
 			}
 			continue
 		}
-		var excl []string
-		for _, r := range targets[name] {
-			excl = append(excl, not(app("=", "r", r)))
+		var goals []string
+		for _, w := range st.writes[name] {
+			if w.ref == "*" {
+				goals = append(goals, not(w.guard))
+				continue
+			}
+			alts := []string{app(">=", w.ref, x.entry.nextref)}
+			for _, r := range targets[name] {
+				alts = append(alts, app("=", w.ref, r))
+			}
+			goals = append(goals, implies(w.guard, or(alts...)))
 		}
-		goal := fmt.Sprintf("(forall ((r Int)) (=> %s (= (select %s r) (select %s r))))",
-			and(append([]string{app("<", "0", "r"), app("<", "r", x.entry.nextref)}, excl...)...), cur.T, init)
-		x.oblige(st, "frame", "frame:"+name, []string{"*"}, goal)
+		if len(goals) > 0 {
+			x.oblige(st, "frame", "frame:"+name, []string{"*"}, and(goals...))
+		}
 	}
 }
